@@ -748,6 +748,105 @@ def _normalise_deques(trees):
         ast.fix_missing_locations(t)
 
 
+def _positional_arguments(trees):
+    """`x.m(device=self)` is `x.m(self)`: a call of a method (or module-level function) of the package whose definitions all have the same
+    parameter list is rewritten with its keyword arguments in positional form, when they fill the parameters without a gap.  Rules read the
+    k-th argument of a call; how the caller spelled it is not behaviour."""
+    defs = {}
+    for t in trees:
+        for x in ast.walk(t):
+            if isinstance(x, ast.ClassDef):
+                for b in x.body:
+                    if isinstance(b, ast.FunctionDef):
+                        deco = [ast.unparse(d) for d in b.decorator_list]
+                        ps = [a.arg for a in b.args.args]
+                        if 'staticmethod' not in deco:
+                            ps = ps[1:]
+                        if b.args.vararg or b.args.kwarg or b.args.kwonlyargs or b.args.posonlyargs or any(d not in ('staticmethod', 'classmethod') for d in deco):
+                            ps = None
+                        defs.setdefault(b.name, []).append(ps)
+        for b in t.body:
+            if isinstance(b, ast.FunctionDef):
+                ps = None if (b.args.vararg or b.args.kwarg or b.args.kwonlyargs or b.args.posonlyargs or b.decorator_list) else [a.arg for a in b.args.args]
+                defs.setdefault(b.name, []).append(ps)
+    sig = {k: v[0] for k, v in defs.items() if v and all(p is not None and p == v[0] for p in v)}
+    # constructors: K(...) -> parameters of K.__init__
+    ctor = {}
+    for t in trees:
+        for c in t.body:
+            if isinstance(c, ast.ClassDef):
+                for b in c.body:
+                    if isinstance(b, ast.FunctionDef) and b.name == '__init__' and not (b.args.vararg or b.args.kwarg or b.args.kwonlyargs or b.args.posonlyargs):
+                        ctor.setdefault(c.name, []).append([a.arg for a in b.args.args[1:]])
+    ctor = {k: v[0] for k, v in ctor.items() if len(v) == 1}
+
+    class T(ast.NodeTransformer):
+        def visit_Call(self, n):
+            self.generic_visit(n)
+            if not n.keywords or any(k.arg is None for k in n.keywords) or any(isinstance(a, ast.Starred) for a in n.args):
+                return n
+            ps = None
+            if isinstance(n.func, ast.Attribute) and n.func.attr in sig and n.func.attr != '__init__':
+                ps = sig[n.func.attr]
+            elif isinstance(n.func, ast.Name) and n.func.id in sig and n.func.id not in ctor:
+                ps = sig[n.func.id]
+            elif isinstance(n.func, ast.Name) and n.func.id in ctor:
+                ps = ctor[n.func.id]
+            if ps is None:
+                return n
+            kw = {k.arg: k.value for k in n.keywords}
+            if not set(kw) <= set(ps) or len(kw) != len(n.keywords):
+                return n
+            args = list(n.args)
+            rest = dict(kw)
+            for p_ in ps[len(args):]:
+                if p_ in rest:
+                    args.append(rest.pop(p_))
+                else:
+                    break
+            if rest:
+                return n          # a gap: some keyword argument comes after an omitted (defaulted) parameter
+            n.args, n.keywords = args, []
+            return n
+    for t in trees:
+        T().visit(t)
+        ast.fix_missing_locations(t)
+
+
+def _plain_assignments(trees):
+    """`self.x: int = 0` / `total: float = a + b` (an annotated assignment with a value, outside class bodies) is the assignment `self.x = 0`;
+    a bare annotation `x: int` inside a function declares nothing at run time and is dropped.  Class-level annotated fields are left alone
+    (dataclasses and NamedTuples read them)."""
+    class T(ast.NodeTransformer):
+        def __init__(self):
+            self.depth_fn = 0
+
+        def visit_FunctionDef(self, n):
+            self.depth_fn += 1
+            self.generic_visit(n)
+            self.depth_fn -= 1
+            if not n.body:
+                n.body = [ast.copy_location(ast.Pass(), n)]
+            return n
+
+        def visit_ClassDef(self, n):
+            saved, self.depth_fn = self.depth_fn, 0
+            self.generic_visit(n)
+            self.depth_fn = saved
+            return n
+
+        def visit_AnnAssign(self, n):
+            if self.depth_fn == 0:
+                return n
+            if n.value is None:
+                return None
+            a = ast.Assign(targets=[n.target], value=n.value, type_comment=None)
+            return ast.copy_location(a, n)
+    for t in trees:
+        T().visit(t)
+        ast.fix_missing_locations(t)
+
+
 def _explicit_dataclass_init(trees):
     """`@dataclass class K: a: T; b: U` without an __init__ of its own has the constructor `def __init__(self, a, b): self.a = a; self.b = b`
     followed by the body of __post_init__: it is written out (in place) so that the rules about how records are built read it.  The decorator
@@ -1009,6 +1108,8 @@ class Program:
             except SyntaxError as e:
                 raise AnalysisError(f'{rel}: does not parse: {e}')
             self.mods[name] = (name, p, tree, is_pkg, src)
+        _plain_assignments([t[2] for t in self.mods.values()])
+        _positional_arguments([t[2] for t in self.mods.values()])
         _explicit_dataclass_init([t[2] for t in self.mods.values()])
         _getattr_spellings([t[2] for t in self.mods.values()])
         _normalise_deques([t[2] for t in self.mods.values()])
